@@ -95,6 +95,15 @@ impl SigningError {
     }
 }
 
+#[cfg(feature = "verif-hooks")]
+impl SigningError {
+    /// Verification hook: public constructor so that external `EnrKey` implementations
+    /// (custom and fault-injecting signers) can be written.
+    pub fn verif_new(msg: &str) -> Self {
+        Self::new(msg)
+    }
+}
+
 impl fmt::Display for SigningError {
     fn fmt(&self, f: &mut fmt::Formatter) -> fmt::Result {
         write!(f, "Key signing error: {}", self.msg)
